@@ -21,7 +21,21 @@ CLAIMED.update({
          "Tens of thousands (quick) to hundreds of thousands (thorough) of generated templates with unknown elements at all positions, fixed and variable lengths, are fed to strict/keep/drop collectors: strict must reject template and data, keep must deliver every unknown field as an octet array with exactly the received bytes, drop must deliver exactly the known fields, and known fields must equal what a collector sees when the unknown fields are absent. Sampled, not exhaustive.",
          "trusted: harness/refipfix, verif hook VerifDecodePacket", "DESIGN.md section 3 C17"),
 })
-HOOK_COMMITS = ["bde829d"]
+CLAIMED.update({
+ "C02": ("property-based testing: rapid-generated SendSet sessions captured on a harness-owned raw socket and decoded by the independent reference codec (differential, byte-exact)",
+         "Thousands (quick) to hundreds of thousands (thorough) of generated sessions (templates through all four construction paths, data sets of 1..200 records, elements from IANA / 29305 / 56506 / a user-registered enterprise covering all 18 types, variable-length values incl. every length 250..260) over tcp and udp, IPv4 and IPv6: every message on the wire must parse as RFC 7011 for a decoder sharing no code with the library and equal the reference encoding byte for byte (export time and sequence number excepted). Sampled.",
+         "trusted: harness/refipfix; loopback delivers bytes in order", "DESIGN.md section 3 C02"),
+ "C08": ("property-based testing: rapid-generated sessions of successful sends with the sequence counter started near 2^32 (verif setter), headers parsed by the reference codec and compared with a running-sum model",
+         "Generated sessions of up to 40 successful sends (template and data sets of 1..200 records, three templates, tcp and udp), half of them starting within 300 of the 2^32 wrap: every captured header must carry sequence = start + data records sent so far (mod 2^32), untouched by template messages, the configured observation domain, an export time inside the sending second, and one message of exactly the reported size per call. Sampled.",
+         "trusted: harness/refipfix; verif hook VerifSetSeqNumber; wall clock monotone within a case", "DESIGN.md section 3 C08"),
+ "C09": ("property-based testing with fault-style inputs: enumerated size window around 65535 and all ill-typed value kinds, plus rapid-generated sessions mixing valid and invalid sends; oracle = byte-level stream equality with the reference encoding of the valid steps",
+         "Every message size 65500..65545 (data) and around the limit (template), every kind of unencodable value through every add path, and thousands of generated sessions mixing valid sends with unknown ids, wrong field counts, Undefined sets, oversized sets and ill-typed values, over tcp and udp: invalid steps must fail and leave no byte on the wire (decided by stream content thanks to marker messages), data may only follow its template on the wire, and transmitted records must equal the faithful encoding. Sampled beyond the enumerated windows.",
+         "trusted: harness/refipfix; loopback delivers bytes in order; UDP sizes 65508..65535 may fail in the kernel (allowed)", "DESIGN.md section 3 C09"),
+ "C16": ("model-based property testing: rapid-generated operation sequences on one Set; invariant after every step (length bookkeeping vs the reference encoding), metamorphic relation (three add paths give identical bytes) and differential against a fresh set",
+         "Generated prepare/add/update/reset sequences with arbitrary element lists: after every operation GetSetLength = 4 + sum of record lengths = reference size, every record buffer equals its reported length and the reference bytes, CreateIPFIXMsg equals the reference message, the reused set equals a fresh set given the operations since the last reset, and replaying the history through each add path yields identical bytes. Sampled.",
+         "trusted: harness/refipfix", "DESIGN.md section 3 C16"),
+})
+HOOK_COMMITS = ["bde829d", "7b897fc"]
 
 checks = []
 for p in props:
